@@ -3,8 +3,8 @@ from props import sched_common as sc, sched_oracles as so
 
 PID = 'C03'
 META = {
-    'text': 'Proved for every engine/history: a released unit is handed to at most one worker and otherwise stays queued (permutation per tick, one message per worker); no dispatch releases a target its own node is still doing (a re-request of an executing unit waits); every result whose unit is still counted as doing finds its job and is applied exactly once (one history entry, then update or purge); the crew view equals the in-flight units step by step as long as replies come from the only holder. The unconditional single-flight / never-dropped statement is refuted by the witness of the open known finding (purge clears doing of an executing descendant -> duplicate flight, dropped second reply, wrong crew view). Model tied to the code by step correspondence; oracle with its own in-flight multiset on the implementation. The todo sets: dawgie.util.fifo.Unique is regenerated from the python source on every run by a fail-closed translator (Gen/FifoGen.v) and PROVED to be the list-set library of the model (Sched.add/addl/rem/mem) for every object a program can build, discard never raising (C03_unique_*_is_source, C03_unique_is_todo_list).',
-    'note': 'Trusted: Coq kernel; Sched.v + drive_sched.py correspondence (fake transports, chronicle recorder). Partial: single flight and "never dropped" hold only while doing is exact for the unit (i.e. no purge removed an executing descendant) -- open known finding C03/duplicate-flight; rebuilds (Build) are modelled without farm.clear().',
+    'text': 'Proved for every engine/history: a released unit is handed to at most one worker and otherwise stays queued (permutation per tick, one message per worker); no dispatch releases a target its own node is still doing (a re-request of an executing unit waits); every result whose unit is still counted as doing finds its job and is applied exactly once (one history entry, then update or purge); the crew view equals the in-flight units step by step as long as replies come from the only holder. The unconditional single-flight / never-dropped statement is refuted by the witness of the open known finding (purge clears doing of an executing descendant -> duplicate flight, dropped second reply, wrong crew view). Model tied to the code by step correspondence; oracle with its own in-flight multiset on the implementation. The todo sets: dawgie.util.fifo.Unique is regenerated from the python source on every run by a fail-closed translator (Gen/FifoGen.v) and PROVED to be the list-set library of the model (Sched.add/addl/rem/mem) for every object a program can build, discard never raising (C03_unique_*_is_source, C03_unique_is_todo_list). HISTORIES WITH REFUSED RUN IDS (Proofs/SchedFaultInv.v): C03_one_worker_or_queued_faults (conservation of messages and pairwise distinct receiving workers for a dispatch with a refused k-th request, from every state of every history: C03_faults_reach), C03_applied_once_faults, C03_no_rerelease_faults_partial (a message made by a dispatch is for a target the node was not doing when the dispatch began, or is made from a job/do set the farm kept after a refused request; a job kept and released again sits on the list twice and each target is still sent once: C03_faults_example).',
+    'note': 'Trusted: Coq kernel; Sched.v + drive_sched.py correspondence (fake transports, chronicle recorder). Partial: single flight and "never dropped" hold only while doing is exact for the unit (i.e. no purge removed an executing descendant) -- open known finding C03/duplicate-flight; rebuilds (Build) are modelled without farm.clear(). With refused run ids: that a kept unit is not also in flight (single flight) is not proved.',
     'technique': 'Coq proof (invariants over histories; refutation witness by vm_compute) over hand-written executable model + source-generated definitions (fifo.Unique) proved equal to the model functions + model/implementation correspondence + implementation-side ghost oracle',
 }
 
